@@ -117,7 +117,7 @@ type TypeInv struct {
 
 var clauseKeywords = map[string]bool{"stable": true, "reads-model": true, "names": true, "iteration": true, "variant": true, "dead-return": true, "requires": true, "ensures": true, "invariant": true, "decreases": true, "property": true,
 	"pure": true, "assigns": true, "trusted": true, "noinline": true, "inline": true, "func": true, "sweep": true, "immutable": true, "spec": true,
-	"axiom": true, "flagset": true, "safeonly": true, "immutable-family": true, "method-pre": true, "funcvalue-pre": true, "entry": true, "type-invariant": true, "child-invariant": true, "elems-nonnil": true, "callback-parametric": true, "json-hidden": true, "json-visible": true, "pass-order": true, "observe-args": true, "map-order": true}
+	"axiom": true, "flagset": true, "safeonly": true, "immutable-family": true, "method-pre": true, "funcvalue-pre": true, "entry": true, "type-invariant": true, "child-invariant": true, "elems-nonnil": true, "callback-parametric": true, "json-hidden": true, "json-visible": true, "pass-order": true, "observe-args": true, "map-order": true, "json-numbers": true}
 
 var contractRoot = "" // directory that contract file paths are relative to (repo or mirror)
 
@@ -509,6 +509,12 @@ func (w *World) parseContractFile(cs *ContractSet, file string) error {
 		case "map-order":
 			// map-order Cxx package : no loop over a Go map in this package prints generator output or appends to a
 			// slice that is not sorted afterwards (map iteration order is random: decided on the SSA)
+			if len(fs) >= 3 && fs[2] == "package" {
+				cs.StructFacts = append(cs.StructFacts, StructFact{Kind: kw, Prop: fs[1], Spec: pkgShort, File: file, Line: rl.line})
+			}
+		case "json-numbers":
+			// json-numbers Cxx package : no struct type of this package (function-local view types included) marshals
+			// a number through `omitempty` - the zero value would be written like an absent one (decided by go/types)
 			if len(fs) >= 3 && fs[2] == "package" {
 				cs.StructFacts = append(cs.StructFacts, StructFact{Kind: kw, Prop: fs[1], Spec: pkgShort, File: file, Line: rl.line})
 			}
